@@ -127,11 +127,11 @@ MUTANTS += [
                                        "    try {\n        block.read(m_decoder, m_file_preamble.m_block_parameters);\n    }\n    catch (CdnsDecoderEnd& e) {\n    }\n    m_blocks_read++;")],
       "read_block swallows end-of-input and returns a partial block"),
     # ---------------------------------------------------------------- C07
-    m("c07-no-simple-arm", "C07", "R07.1", [(DE, "        case CborType::SIMPLE:\n            if (item_length >= 28 && item_length <= 30) {\n                throw CdnsDecoderException((\"Unsupported CBOR additional information value: \" +\n                                            std::to_string(item_length)).c_str());\n            }\n            read_int(item_length);\n            break;\n\n", "")],
+    m("c07-no-simple-arm", "C07", "R07.1", [(DE, "            case CborType::SIMPLE:\n                if (item_length >= 28 && item_length <= 30) {\n                    throw CdnsDecoderException((\"Unsupported CBOR additional information value: \" +\n                                                std::to_string(item_length)).c_str());\n                }\n                read_int(item_length);\n                break;\n\n", "")],
       "skip_item has no arm for simple values/floats"),
     m("c07-revert-f3a", "C07", "R07.2", [(DE, "        while (peek_type() != CborType::BREAK) {", "        while (peek_type() != CborType::SIMPLE) {")], "read_string stop-code test against SIMPLE (reverted F3)"),
-    m("c07-revert-f3b", "C07", "R07.2", [(DE, "                    if (peek_type() == CborType::BREAK) {\n                        m_p++;", "                    if (peek_type() == CborType::SIMPLE && (m_p[0] & 0x1F) == 31) {\n                        m_p++;")], "skip_item stop-code test against SIMPLE (reverted F3)"),
-    m("c07-revert-f4", "C07", "R07.3", [(DE, "            read_int(item_length);\n            // A tag is a single data item together with its content\n            skip_item();\n            break;", "            read_int(item_length);\n            break;")], "tag content not skipped (reverted F4)"),
+    m("c07-revert-f3b", "C07", "R07.2", [(DE, "            if (peek_type() == CborType::BREAK) {\n                read_break();\n                pending.pop_back();", "            if (peek_type() == CborType::SIMPLE) {\n                read_break();\n                pending.pop_back();")], "skip_item stop-code test against SIMPLE (reverted F3)"),
+    m("c07-revert-f4", "C07", "R07.3", [(DE, "                read_int(item_length);\n                // A tag is a single data item together with its content\n                pending.push_back({1, false});\n                break;", "                read_int(item_length);\n                break;")], "tag content not skipped (reverted F4)"),
     m("c07-width", "C07", "R07.4", [(DE, "for (int i = 1 << (item_length - 24); i > 0; i--) {", "for (int i = item_length - 23; i > 0; i--) {")], "argument widths 1,2,3,4 instead of 1,2,4,8"),
     m("c07-endian", "C07", "R07.4", [(DE, "value += (static_cast<uint64_t>(m_p[0]) << ((i - 1) * 8));", "value += (static_cast<uint64_t>(m_p[0]) << (((1 << (item_length - 24)) - i) * 8));")], "little-endian assembly"),
     m("c07-reserved", "C07", "R07.4", [(DE, "    if (cbor_type != CborType::UNSIGNED) {\n        throw CdnsDecoderException((\"read_unsigned() called on wrong major type \" +\n                                    std::to_string(static_cast<uint8_t>(cbor_type) >> 5)).c_str());\n    }\n    else if (item_length >= 28) {", "    if (cbor_type != CborType::UNSIGNED) {\n        throw CdnsDecoderException((\"read_unsigned() called on wrong major type \" +\n                                    std::to_string(static_cast<uint8_t>(cbor_type) >> 5)).c_str());\n    }\n    else if (item_length > 28) {")],
@@ -162,7 +162,7 @@ NEUTRAL += [
     {"id": "n-gcount-test", "props": ["C05", "C03"],
      "edits": [(DE, "        if (m_p == m_end)\n            throw CdnsDecoderEnd(\"End of input stream\");", "        if (m_input.gcount() == 0)\n            throw CdnsDecoderEnd(\"End of input stream\");")]},
     {"id": "n-skip-break-explicit", "props": ["C07", "C08"],
-     "edits": [(DE, "                    if (peek_type() == CborType::BREAK) {\n                        m_p++;\n                        break;\n                    }", "                    if (peek_type() == CborType::BREAK) {\n                        read_break();\n                        break;\n                    }")]},
+     "edits": [(DE, "        else if (pending.back().items_left == 0) {\n            pending.pop_back();\n            continue;\n        }\n        else {\n            pending.back().items_left--;\n        }", "        else if (!(pending.back().items_left > 0)) {\n            pending.pop_back();\n            continue;\n        }\n        else {\n            pending.back().items_left -= 1;\n        }")]},
 ]
 
 FS = "src/format_specification.h"
@@ -272,4 +272,32 @@ NEUTRAL += [
      "edits": [(BT, "            indexes_[KeyRef<K>(items_.back().key())] = res;", "            indexes_[KeyRef<K>(items_[res].key())] = res;")]},
     {"id": "n-const-table", "props": ["C20"],
      "edits": [(IF, "static std::string get_readable_dname(std::string& wire_dname)\n{", "static const char kDot = '.';\n\nstatic std::string get_readable_dname(std::string& wire_dname)\n{\n    (void)kDot;")]},
+]
+
+BL = "src/bin/cdns_blocks.cpp"
+PR = "src/bin/cdns_preamble.cpp"
+MUTANTS += [
+    # ---------------------------------------------------------------- C03
+    m("c03-bp-index", "C03", "R03.2", [(B, "                    if (*m_block_preamble.block_parameters_index < block_parameters.size())\n                        m_block_parameters = block_parameters[*m_block_preamble.block_parameters_index];\n                    else\n                        throw CdnsDecoderException(\"Block parameters index for C-DNS block is too high\");",
+                                        "                    m_block_parameters = block_parameters[*m_block_preamble.block_parameters_index];")],
+      "block-parameters index from the file used unchecked"),
+    m("c03-qr-cursor", "C03", "R03.2", [(B, "    if (m_qr_read >= m_query_responses.size()) {", "    if (m_qr_read > m_query_responses.size()) {")], "read_generic_qr reads one element past the end"),
+    m("c03-revert-f6", "C03", "R03.3", [(B, "    list.reserve(std::min<uint64_t>(length, static_cast<uint64_t>(CdnsDecoder::BUFFER_SIZE)));", "    list.reserve(length);")], "reserve sized by the wire length (reverted F6)"),
+    m("c03-revert-f6b", "C03", "R03.3", [(DE, "            ret.reserve(ret.size() + std::min<uint64_t>(chunk_length, static_cast<uint64_t>(BUFFER_SIZE)));", "            ret.reserve(ret.size() + chunk_length);")], "chunk reserve sized by the wire length"),
+    m("c03-revert-f7a", "C03", "R03.2", [(IF, "        // The next label length byte has to lie inside the domain name\n        if (pos >= dname.size())\n            return wire_dname;\n\n", "")], "label walk without position check (reverted F7)"),
+    m("c03-off-by-one", "C03", "R03.2", [(IF, "        if (pos >= dname.size())\n            return wire_dname;", "        if (pos > dname.size())\n            return wire_dname;")], "label walk accepts pos == size and then writes the terminator position"),
+    m("c03-revert-f7b", "C03", "R03.6", [(IF, "    // Wire format address has to be exactly 4 (IPv4) or 16 (IPv6) bytes long\n    if (wire_ip.size() != (ipv6 ? 16 : 4))\n        return wire_ip;\n\n", "")], "inet_ntop on an address of unchecked length (reverted F7)"),
+    m("c03-revert-f8", "C03", "R03.5", [(TS, "        uint64_t back = static_cast<uint64_t>(-(offset + 1)) + 1;", "        uint64_t back = static_cast<uint64_t>(-offset);")], "negation of INT64_MIN"),
+    m("c03-revert-f5", "C03", "R03.4", [(DE, "                // A tag is a single data item together with its content\n                pending.push_back({1, false});", "                // A tag is a single data item together with its content\n                skip_item();")], "tag content skipped recursively: depth controlled by the input"),
+    m("c03-throw-int", "C03", "R03.7", [(B, "        throw CdnsDecoderException(\"Given Block parameters array is empty!\");", "        throw -1;")], "an int is thrown on the read path"),
+    m("c03-main-no-try", "C03", "R03.7", [(BL, "    try {\n        std::ifstream ifs(input_file, std::ifstream::binary);\n        CDNS::CdnsReader reader(ifs);\n        bool end = false;", "    std::ifstream ifs(input_file, std::ifstream::binary);\n    CDNS::CdnsReader reader(ifs);\n    try {\n        bool end = false;")],
+      "cdns-blocks constructs the reader outside its try block"),
+    m("c03-vla", "C03", "R03.4", [(IF, "    char addrBuf[buflen];", "    char addrBuf[buflen + wire_ip.size()];")], "stack array sized by a string taken from the file"),
+    m("c03-stale", "C03", "R03.1", [(DE, "        for (unsigned i = 0; i < length; i++) {\n            read_to_buffer();\n", "        for (unsigned i = 0; i < length; i++) {\n")], "string bytes read without refill check"),
+]
+NEUTRAL += [
+    {"id": "n-dname-not-lt", "props": ["C03"],
+     "edits": [(IF, "        if (pos >= dname.size())\n            return wire_dname;", "        if (!(pos < dname.size()))\n            return wire_dname;")]},
+    {"id": "n-qr-cursor-not", "props": ["C03"],
+     "edits": [(B, "    if (m_qr_read >= m_query_responses.size()) {", "    if (!(m_qr_read < m_query_responses.size())) {")]},
 ]
